@@ -93,7 +93,7 @@ PROPS = {
     ),
     "C16": dict(
         specs=["node_model", "helpers"],
-        ground=[ground.c16_atomicity, ground.c16_format],
+        ground=[ground.c16_atomicity, ground.c16_format, ground.c16_e2e_seeded],
         replay=replay.generic, ground_replay=replay.c16_schedule,
         trusted_base=["with <Lock> is mutual exclusion; a single attribute load/store is atomic (S7)"],
         assumptions=COMMON_ASSUME + ["S7 GIL: single attribute loads/stores of immutable objects are atomic",
@@ -222,7 +222,7 @@ PROPS = {
         explanation="ghost-origin contract of route_answer / send_answer.",
     ),
     "C10": dict(
-        specs=["packer", "avp", "avp_types", "avp_grouped", "base", "node_model", "peer", "helpers", "c20", "family", "node"],
+        specs=["packer", "avp", "avp_types", "avp_grouped", "base", "node_model", "peer", "helpers", "c20", "family", "node", "c13", "c08"],
         ground=[], replay=replay.generic,
         trusted_base=["threading.Event.wait as an environment step (other threads may deliver an answer meanwhile)"],
         assumptions=COMMON_ASSUME + [
@@ -310,8 +310,8 @@ PROPS = {
         explanation="raises-nothing and slot-accounting contracts on the thread targets.",
     ),
     "C15": dict(
-        specs=["packer", "avp", "avp_types", "avp_grouped", "base", "node_model", "peer", "helpers", "c20", "family", "node", "c13", "c15"],
-        ground=[ground.c15_lock_coverage], replay=replay.generic,
+        specs=["packer", "avp", "avp_types", "avp_grouped", "base", "node_model", "peer", "helpers", "c20", "family", "node", "c13", "c15", "c18"],
+        ground=[ground.c15_lock_coverage, ground.c15_soft_errors], replay=replay.generic,
         trusted_base=["`with Lock` is mutual exclusion; a single attribute load/store is atomic (S7)",
                       "socket.send accepts a prefix of 0..len bytes of the buffer it is given, or fails (T-sock)",
                       "queue.Queue is FIFO (messages are dequeued in queueing order)"],
